@@ -158,7 +158,23 @@ def c20(x):
     return x
 
 
-CORRUPT = {"TraceC01": c01, "TraceC03": c03, "TraceC04": c04, "TraceC05": c05, "TraceC06": c06, "TraceC07": c07, "TraceC08": c08,
+def srv(x):
+    """a look-up that lost a server, names one twice, or puts a higher priority number first; a login reported the other way round"""
+    if x["ev"] == "login":
+        x["ok"] = not x["ok"]
+        return x
+    if x["ev"] != "lookup" or x["err"] or len(x["servers"]) < 2:
+        return None
+    prio = {r["host"] + ":" + str(r["port"]): r["prio"] for r in x["records"]}
+    s = x["servers"]
+    if prio.get(s[0]) != prio.get(s[-1]):
+        s[0], s[-1] = s[-1], s[0]          # priority order broken
+    else:
+        s[-1] = s[0]                       # one server twice, one lost
+    return x
+
+
+CORRUPT = {"TraceSRV": srv, "TraceC01": c01, "TraceC03": c03, "TraceC04": c04, "TraceC05": c05, "TraceC06": c06, "TraceC07": c07, "TraceC08": c08,
            "TraceC09": c09, "TraceC10": c10, "TraceC11": c11, "TraceC12": c12, "TraceC13": c13, "TraceC14": c14, "TraceC15": c15, "TraceC19": c19, "TraceC16": c16, "TraceC17": c17,
            "TraceC18": c18, "TraceC20": c20}
 
